@@ -7,7 +7,7 @@
 From Coq Require Import Lia.
 From ASModel Require Import Base State Orderings_gen Step Run Progress Hist Inv InvTl InvProto InvStep Sum StepCases.
 From ASModel Require Import GenDefs Gen1 Gen2 Gen EnvDefs.
-From ASModel Require Import AccDefs Acc1 Acc2 Acc3 Acc4 Acc5 Acc6.
+From ASModel Require Import AccDefs Acc1 Acc2 Acc3 Acc4 Acc5 Acc6 Acc7.
 
 (** ** The invariant *)
 Definition FreshNodes (s : state) : Prop := fresh_sh (sh s).
@@ -310,3 +310,142 @@ Definition progs_nocache (progs : list (list cmd)) : Prop :=
 Theorem AccInv_init inits progs :
   (forall a, In a inits -> a = 0 \/ valid a) -> progs_nocache progs -> AccInv (init_state inits progs).
 Proof. intros _ _. apply AccInv_init'. Qed.
+
+(** ** Runs *)
+(** What is assumed of every state of a run (besides [WF2], which is inductive). *)
+Definition RunHyp (s : state) : Prop := Quiet s /\ EnvFree s /\ EnvA s /\ ProgHyp s.
+
+Theorem run_AccInv cf : forall sched s,
+  WF2 s -> AccInv s ->
+  (forall k, RunHyp (run_state cf s (firstn k sched))) ->
+  NoFault (run_state cf s sched) ->
+  AccInv (run_state cf s sched).
+Proof.
+  induction sched as [|[t x] sched IH]; intros s W AI Hh Hnf; [exact AI|].
+  rewrite run_state_cons in *. destruct (Hh 0%nat) as (Q & EF & EA & PH). cbn in Q, EF, EA, PH.
+  apply IH.
+  - apply step_WF2. exact W.
+  - apply step_AccInv; try assumption. eapply NoFault_run_back. exact Hnf.
+  - intros k. exact (Hh (S k)).
+  - exact Hnf.
+Qed.
+
+(** The same with the hypotheses stated for every state separately, [WF2] included. *)
+Theorem run_AccInv_all cf sched s :
+  AccInv s ->
+  (forall k, let sk := run_state cf s (firstn k sched) in
+             WF2 sk /\ Quiet sk /\ EnvFree sk /\ EnvA sk /\ ProgHyp sk) ->
+  NoFault (run_state cf s sched) ->
+  AccInv (run_state cf s sched).
+Proof.
+  intros AI Hh Hnf. apply run_AccInv; [exact (proj1 (Hh 0%nat))|exact AI| |exact Hnf].
+  intros k. exact (proj2 (Hh k)).
+Qed.
+
+(** Programs never change: the absence of [Cache] commands is a property of the initial state. *)
+Lemma NoCacheP_init inits progs : progs_nocache progs -> NoCacheP (init_state inits progs).
+Proof.
+  intros Hp t c. cbn [init_state thr].
+  apply (init_threads_prog (fun pr => In c pr -> cmd_nocache c)); [intros []|intros p Hin Hc; exact (Hp p c Hin Hc)].
+Qed.
+
+Lemma NoCacheP_run cf : forall sched s, NoCacheP s -> NoCacheP (run_state cf s sched).
+Proof.
+  induction sched as [|[t x] sched IH]; intros s H; [exact H|].
+  rewrite run_state_cons. apply IH. intros t' c. rewrite step_prog. apply H.
+Qed.
+
+Theorem run_AccInv_init cf inits progs sched :
+  (forall a, In a inits -> a = 0 \/ valid a) -> progs_nocache progs ->
+  (forall k, let sk := run_state cf (init_state inits progs) (firstn k sched) in
+             Quiet sk /\ EnvFree sk /\ EnvA sk /\ DstFresh sk) ->
+  NoFault (run_state cf (init_state inits progs) sched) ->
+  AccInv (run_state cf (init_state inits progs) sched).
+Proof.
+  intros Hi Hp Hh Hnf. apply run_AccInv; [apply WF2_init|apply AccInv_init; assumption| |exact Hnf].
+  intros k. destruct (Hh k) as (Q & EF & EA & DF).
+  split; [exact Q|]. split; [exact EF|]. split; [exact EA|]. split; [|exact DF].
+  apply NoCacheP_run. apply NoCacheP_init. exact Hp.
+Qed.
+
+(** ** Consequences for quiescent states *)
+Definition Quiescent (s : state) : Prop := forall t, t_stack (thr s t) = [].
+
+Lemma quiescent_ctrl s : WF2 s -> Quiet s -> FreshNodes s -> Quiescent s -> forall w, mem (sh s) (LCtrl w) = IDLE.
+Proof.
+  intros W Q F Hq w. destruct (N.lt_ge_cases w (nn s)) as [Hlt|Hge]; [|exact (proj2 (F w Hge))].
+  assert (Hidle : node_idle (mem (sh s)) w); [|exact (proj1 Hidle)].
+  destruct (N.eq_dec (mem (sh s) (LInUse w)) NODE_USED) as [Hu|Hu].
+  - apply (w_inuse _ W w Hlt) in Hu as (t & Hh).
+    destruct (status_running_dec (t_status (thr s t))) as [Hr|Hr].
+    + pose proof (w_top _ W t w Hr Hh) as Ht. rewrite (Hq t) in Ht. exact Ht.
+    + destruct (q_stop _ Q t Hr) as [Hs Hn]. unfold holder in Hh. rewrite Hn, Hs in Hh. discriminate Hh.
+  - apply (w_unowned _ W w Hlt). intros t Hh. apply Hu. apply (w_inuse _ W w Hlt). eauto.
+Qed.
+
+Theorem quiescent_counts s a :
+  WF2 s -> Quiet s -> AccInv s -> Quiescent s -> valid a ->
+  exists nS nC nH,
+    Total (fun ij : N * N => is a (mem (sh s) (LSlot (fst ij) (snd ij)))) nS /\
+    Total (fun c : N => is a (mem (sh s) (LStore c))) nC /\
+    Total (fun h : N => href a (hnd s h)) nH /\
+    mem (sh s) (LCount a) + nS = nC + nH.
+Proof.
+  intros W Q AI Hq Ha. destruct (ai_acc _ AI a Ha) as (nL & nR & TL & TR & E).
+  pose proof (quiescent_ctrl s W Q (ai_fresh _ AI) Hq) as Hc.
+  set (P := fun i : idx => match i with IStore _ => true | _ => false end).
+  destruct (Total_restr P _ _ TR) as (m1 & T1).
+  destruct (Total_restr (fun i => negb (P i)) _ _ TR) as (m2 & T2).
+  pose proof (Total_split P _ _ _ _ TR T1 T2) as Es.
+  exists nL, m1, m2. split; [|split; [|split; [|lia]]].
+  - apply (Total_reindex (Lw a s) (fun ij : N * N => ISlot (fst ij) (snd ij))
+             (fun i => match i with ISlot n j => Some (n, j) | _ => None end)); [| | |exact TL].
+    + intros [n j]. reflexivity.
+    + intros [n j|c|w|t|h] [n' j']; try discriminate. intros [= <- <-]. reflexivity.
+    + intros [n j|c|w|t|h]; try discriminate; intros _; cbn; try reflexivity. rewrite (Hq t). reflexivity.
+  - apply (Total_reindex (restr P (Rw a s)) IStore (fun i => match i with IStore c => Some c | _ => None end)); [| | |exact T1].
+    + reflexivity.
+    + intros [n j|c|w|t|h] c'; try discriminate. intros [= <-]. reflexivity.
+    + intros [n j|c|w|t|h]; try discriminate; intros _; reflexivity.
+  - apply (Total_reindex (restr (fun i => negb (P i)) (Rw a s)) IHandle
+             (fun i => match i with IHandle h => Some h | _ => None end)); [| | |exact T2].
+    + reflexivity.
+    + intros [n j|c|w|t|h] h'; try discriminate. intros [= <-]. reflexivity.
+    + intros [n j|c|w|t|h]; try discriminate; intros _; cbn; try reflexivity.
+      * apply env_cnt_idle. apply Hc.
+      * rewrite (Hq t). reflexivity.
+Qed.
+
+Theorem no_owner_destroyed s a :
+  WF2 s -> Quiet s -> AccInv s -> Quiescent s -> valid a ->
+  (forall c, mem (sh s) (LStore c) <> a) ->
+  (forall h, href a (hnd s h) = 0) ->
+  mem (sh s) (LCount a) = 0 /\ heap (sh s) a = None /\ forall n j, mem (sh s) (LSlot n j) <> a.
+Proof.
+  intros W Q AI Hq Ha Hst Hh.
+  destruct (quiescent_counts s a W Q AI Hq Ha) as (nS & nC & nH & TS & TC & TH & E).
+  assert (EC : nC = 0).
+  { apply (Total_unique _ _ _ TC). apply Total_zero_iff. intros c. unfold is, ind.
+    destruct (N.eqb_spec (mem (sh s) (LStore c)) a) as [Ec|]; [elim (Hst c Ec)|reflexivity]. }
+  assert (EH : nH = 0) by (apply (Total_unique _ _ _ TH); apply Total_zero_iff; exact Hh).
+  assert (E0 : mem (sh s) (LCount a) = 0) by lia.
+  split; [exact E0|]. split; [apply (ai_alive _ AI); exact E0|].
+  intros n j Hs. pose proof (Total_ge _ _ (n, j) TS) as Hge. cbn in Hge. rewrite Hs, is_same in Hge. lia.
+Qed.
+
+(** A handle refers to [a] iff it is an owned pointer or a guard on [a]. *)
+Lemma href_zero a h : href a h = 0 <-> forall x, (h = HOwned x \/ (exists d, h = HGuard x d) \/ (exists c, h = HCache c x)) -> x <> a.
+Proof.
+  split.
+  - intros H x [->|[[d ->]|[c ->]]] ->; cbn in H; rewrite is_same in H; discriminate.
+  - intros H. destruct h as [|x|x d|c x]; cbn; try reflexivity; unfold is, ind;
+      (destruct (N.eqb_spec x a) as [E|]; [|reflexivity]); exfalso; eapply (H x); eauto.
+Qed.
+
+Print Assumptions AccInv_init.
+Print Assumptions step_AccInv.
+Print Assumptions run_AccInv.
+Print Assumptions run_AccInv_all.
+Print Assumptions run_AccInv_init.
+Print Assumptions quiescent_counts.
+Print Assumptions no_owner_destroyed.
